@@ -2,6 +2,7 @@ package gosym
 
 import (
 	"fmt"
+	"go/types"
 	"strconv"
 	"strings"
 
@@ -66,6 +67,91 @@ func registerIntrinsics(in *Interp) {
 	I["vIntSame"] = func(in *Interp, a []Value, _ ssa.CallInstruction) Value {
 		return in.B.Var("|"+str(a[0])+"|", sym.BVSort(in.WordBits))
 	}
+	// ---- file-content strings (C17): SMT String terms built from ++, prefixof, substr, length classes
+	I["vStr"] = func(in *Interp, a []Value, _ ssa.CallInstruction) Value {
+		return &SymStr{Str: in.B.Var(in.nondetName(str(a[0])), sym.StringSort)}
+	}
+	I["vPrefixOf"] = func(in *Interp, a []Value, _ ssa.CallInstruction) Value {
+		x, okx := a[0].(string)
+		y, oky := a[1].(string)
+		if okx && oky {
+			return in.B.Bool(strings.HasPrefix(y, x))
+		}
+		return in.B.Raw("str.prefixof", sym.BoolSort, in.strTerm(a[0]), in.strTerm(a[1]))
+	}
+	I["vLenAtLeast"] = func(in *Interp, a []Value, _ ssa.CallInstruction) Value {
+		n := in.cint(a[1], "length")
+		if x, ok := a[0].(string); ok {
+			return in.B.Bool(len(x) >= n)
+		}
+		anyc := in.B.Raw("re.allchar", sym.RegLanSort)
+		re := in.B.Raw("re.++", sym.RegLanSort, in.B.RawP("re.loop", sym.RegLanSort, n, n, anyc), in.B.Raw("re.all", sym.RegLanSort))
+		return in.B.InRe(in.strTerm(a[0]), re)
+	}
+	I["vLenIs"] = func(in *Interp, a []Value, _ ssa.CallInstruction) Value {
+		n := in.cint(a[1], "length")
+		if x, ok := a[0].(string); ok {
+			return in.B.Bool(len(x) == n)
+		}
+		anyc := in.B.Raw("re.allchar", sym.RegLanSort)
+		return in.B.InRe(in.strTerm(a[0]), in.B.RawP("re.loop", sym.RegLanSort, n, n, anyc))
+	}
+	// vIsHex(s, n): s is n lower-case hexadecimal digits
+	I["vIsHex"] = func(in *Interp, a []Value, _ ssa.CallInstruction) Value {
+		n := in.cint(a[1], "length")
+		if x, ok := a[0].(string); ok {
+			okk := len(x) == n
+			for i := 0; i < len(x); i++ {
+				if !((x[i] >= '0' && x[i] <= '9') || (x[i] >= 'a' && x[i] <= 'f')) {
+					okk = false
+				}
+			}
+			return in.B.Bool(okk)
+		}
+		hex := in.B.Raw("re.union", sym.RegLanSort, in.B.Raw("re.range", sym.RegLanSort, in.B.StrConst("0"), in.B.StrConst("9")), in.B.Raw("re.range", sym.RegLanSort, in.B.StrConst("a"), in.B.StrConst("f")))
+		return in.B.InRe(in.strTerm(a[0]), in.B.RawP("re.loop", sym.RegLanSort, n, n, hex))
+	}
+	// vIsText(s): printable ASCII, tab and newline only
+	I["vIsText"] = func(in *Interp, a []Value, _ ssa.CallInstruction) Value {
+		if x, ok := a[0].(string); ok {
+			okk := true
+			for i := 0; i < len(x); i++ {
+				if !((x[i] >= ' ' && x[i] <= '~') || x[i] == '\n' || x[i] == '\t') {
+					okk = false
+				}
+			}
+			return in.B.Bool(okk)
+		}
+		ch := in.B.Raw("re.union", sym.RegLanSort, in.B.Raw("re.range", sym.RegLanSort, in.B.StrConst(" "), in.B.StrConst("~")), in.B.Raw("str.to_re", sym.RegLanSort, in.B.StrConst("\n")), in.B.Raw("str.to_re", sym.RegLanSort, in.B.StrConst("\t")))
+		return in.B.InRe(in.strTerm(a[0]), in.B.Raw("re.*", sym.RegLanSort, ch))
+	}
+	I["vFirst"] = func(in *Interp, a []Value, _ ssa.CallInstruction) Value {
+		n := in.cint(a[1], "length")
+		if x, ok := a[0].(string); ok {
+			if len(x) < n {
+				return x
+			}
+			return x[:n]
+		}
+		return &SymStr{Str: in.B.Raw("str.substr", sym.StringSort, in.strTerm(a[0]), in.B.RawP("int", sym.Sort{K: sym.SInt}, 0, 0), in.B.RawP("int", sym.Sort{K: sym.SInt}, n, 0))}
+	}
+	I["vLen"] = func(in *Interp, a []Value, _ ssa.CallInstruction) Value {
+		if x, ok := a[0].(string); ok {
+			return in.B.Const(in.WordBits, uint64(len(x)))
+		}
+		// the length of a symbolic string: an unconstrained non-negative count nobody should depend on
+		in.lenSeq++
+		return in.B.ZExt(in.WordBits, in.B.Var("|len#"+strconv.Itoa(in.lenSeq)+"|", sym.BVSort(in.WordBits-1)))
+	}
+	I["vTagBuf"] = func(in *Interp, a []Value, _ ssa.CallInstruction) Value {
+		b := a[0].(Slice)
+		if in.bufTags == nil {
+			in.bufTags = map[*Cell]Value{}
+		}
+		in.bufTags[b.Arr] = a[1]
+		return nil
+	}
+	I["vCrashEnabled"] = func(in *Interp, a []Value, _ ssa.CallInstruction) Value { return in.B.True() }
 	I["vRegister"] = func(in *Interp, a []Value, _ ssa.CallInstruction) Value { return nil }
 	I["vParamInt"] = func(in *Interp, a []Value, _ ssa.CallInstruction) Value {
 		v, ok := in.Params[str(a[0])]
@@ -357,6 +443,34 @@ func registerIntrinsics(in *Interp) {
 		}
 		in.store(p.C.Kids[0], a[1].(Iface).V)
 		return nil
+	}
+	I["vField0"] = func(in *Interp, a []Value, _ ssa.CallInstruction) Value {
+		v := a[0].(Iface)
+		st, ok := v.V.(*Struct)
+		if !ok || len(st.F) == 0 {
+			in.unmodelled("vField0: not a struct value")
+		}
+		ft := under(v.T).(*types.Struct).Field(0).Type()
+		return Iface{T: ft, V: st.F[0]}
+	}
+	// vWasSorted(s): s is exactly the slice sort.Strings was last applied to and has not been written since.
+	I["vWasSorted"] = func(in *Interp, a []Value, _ ssa.CallInstruction) Value {
+		s := a[0].(Slice)
+		r := in.lastSorted
+		if r == nil {
+			return in.B.Bool(s.Len <= 1)
+		}
+		if s.Len <= 1 && r.s.Len <= 1 {
+			return in.B.True()
+		}
+		if r.s.Arr != s.Arr || r.s.Off != s.Off || r.s.Len != s.Len {
+			return in.B.False()
+		}
+		same := in.B.True()
+		for i := 0; i < s.Len; i++ {
+			same = in.B.And(same, in.eqValues(in.load(s.Arr.Kids[s.Off+i]), r.vals[i]))
+		}
+		return same
 	}
 	I["vFailNative"] = func(in *Interp, a []Value, _ ssa.CallInstruction) Value { return nil }
 	I["vSymbolic"] = func(in *Interp, a []Value, _ ssa.CallInstruction) Value { return in.B.True() }
